@@ -29,6 +29,7 @@ class Engine:
     def __init__(self, seed=0, timeout_ms=120000):
         self.seed = seed
         self.timeout_ms = timeout_ms
+        self.no_retry = False
         self.concrete = False  # concrete (native) mode: no branching allowed
         self.fresh_solver_per_path = False
         self.cross_budget = 0  # number of unsat path verdicts to re-decide with cvc5
@@ -74,6 +75,15 @@ class Engine:
             self.solver.add(*extra)
         r = self.solver.check()
         m = self.solver.model() if r == z3.sat else None
+        if r == z3.unknown and not self.no_retry:
+            # a time-out of the long-lived incremental solver (typically on a loaded machine): decide the same
+            # assertions once more on a fresh solver with three times the budget before giving up
+            self.stats["retried_unknown"] = self.stats.get("retried_unknown", 0) + 1
+            s2 = z3.Solver()
+            s2.set("timeout", 3 * self.timeout_ms)
+            s2.add(*self.solver.assertions())
+            r = s2.check()
+            m = s2.model() if r == z3.sat else None
         if extra:
             self.solver.pop()
         self.stats["solver_s"] += time.time() - t
@@ -284,9 +294,11 @@ class Engine:
         if self.model is None:
             if timeout_ms is not None:
                 self.solver.set("timeout", timeout_ms)
+                self.no_retry = True
             try:
                 r, m = self._check()
             finally:
+                self.no_retry = False
                 if timeout_ms is not None:
                     self.solver.set("timeout", self.timeout_ms)
             if r != "sat":
